@@ -342,6 +342,22 @@ pub fn c09(tier: Tier) -> PropSpec {
                 },
                 c09_check,
             ),
+            Part::new(
+                "wide",
+                tier.pick(120, 1500),
+                || {
+                    (
+                        gen::adf_case(
+                            prop_oneof![2 => gen::adf_large(250, 262, 5, 4), 1 => gen::adf_large(126, 132, 6, 4), 1 => gen::adf_large(510, 520, 4, 3)].boxed(),
+                            LabelClass::Alnum,
+                        ),
+                        sort_strategy(),
+                    )
+                        .prop_map(|(adf, sort)| SemCase { adf, sort })
+                        .boxed()
+                },
+                c09_check,
+            ),
             Part::new("undeclared", tier.pick(4000, 40000), || crate::props::sem::sem_case(2, 6), c09_undeclared),
             Part::with_shrink("chains", tier.pick(800, 8000), 200, chain_case, c09_chains),
         ],
